@@ -18,6 +18,9 @@ import (
 	"fmt"
 	"math/rand"
 	"net/url"
+	"os"
+	"runtime/debug"
+	"runtime/pprof"
 	"sort"
 	"strconv"
 	"strings"
@@ -44,6 +47,12 @@ func exhMaxN(tier string) int {
 
 func main() {
 	mlog.SetLevel(-1)
+	if p := os.Getenv("C11_PPROF"); p != "" && len(os.Args) > 1 && os.Args[1] == "run" {
+		if fh, err := os.Create(p); err == nil {
+			pprof.StartCPUProfile(fh)
+			defer pprof.StopCPUProfile()
+		}
+	}
 	vh.Main(&vh.Prop{
 		ID:    "C11",
 		Level: "exploration",
@@ -53,7 +62,7 @@ func main() {
 			"EXHAUSTIVE sub-space: every stream of 1..3 messages whose rendered length n is <= 14 bytes (quick) / <= 16 bytes (thorough) " +
 			"[all payload-size tuples that fit; all compressed-flag patterns under identity, unflagged under absent/gzip/deflate/snappy] x all 2^(n-1) cut-point sets " +
 			"x END_STREAM on {last DATA, empty DATA, trailers} x {client-to-server, server-to-client}. SAMPLED beyond that: all 1-cut sets (n<=400) and all 2-cut sets " +
-			"(n<=70 quick / n<=160 thorough) of a fixed list of compressed streams, one-byte dribble, PRNG message sequences (0..6 messages, sizes {0,1,5,100,70000}) " +
+			"(n<=48 quick / n<=160 thorough) of a fixed list of compressed streams, one-byte dribble, PRNG message sequences (0..6 messages, sizes {0,1,5,100,70000}) " +
 			"with PRNG cut sets that always cut inside a prefix and at message boundaries, both directions interleaved, non-gRPC streams, and a sample through the real " +
 			"h2 relay (h2.Config.Proxy between a harness h2 client on an in-memory pipe and a harness TLS h2 server). " +
 			"A class is (encoding, flag pattern none/all/mixed, message count 0/1/2/3+, cut class, END_STREAM placement, direction, driver) as observed at the sink.",
@@ -104,6 +113,10 @@ type flowSpec struct {
 	Raw  int         `json:"raw,omitempty"`
 	EOS  string      `json:"eos"`  // last | empty | trailers | headers
 	Cuts []int       `json:"cuts"` // offsets in [1,n-1], non-decreasing; a repeat = empty DATA frame
+
+	// rd caches the rendering for block runners that reuse one flowSpec with
+	// many cut sets (Enc/Msgs/Raw are not changed after the first render).
+	rd *grpcx.Rendered
 }
 
 type caseSpec struct {
@@ -119,7 +132,14 @@ type caseSpec struct {
 const grpcCT = "application/grpc"
 
 func (f *flowSpec) render(pseed uint64, dir int) *grpcx.Rendered {
-	if f.Raw > 0 || len(f.Msgs) == 0 && f.Raw < 0 {
+	if f.rd == nil {
+		f.rd = f.render1(pseed, dir)
+	}
+	return f.rd
+}
+
+func (f *flowSpec) render1(pseed uint64, dir int) *grpcx.Rendered {
+	if f.Raw > 0 {
 		rd := &grpcx.Rendered{}
 		rng := rand.New(rand.NewSource(int64(pseed>>1) + int64(dir)))
 		rd.Wire = make([]byte, f.Raw)
@@ -306,6 +326,9 @@ type obs struct {
 	calls [2][]procCall
 	errs  [2][]string
 	fed   [2][]step
+	// notRun: the relay driver could not even start this direction (an
+	// earlier direction of the same stream never completed); it is not judged
+	notRun [2]bool
 }
 
 var theURL, _ = url.Parse("https://origin.example/verif.Svc/Call")
@@ -319,7 +342,7 @@ func (c *caseSpec) flow(d int) *flowSpec {
 
 func execDirect(c *caseSpec) *obs {
 	o := &obs{}
-	sinks := [2]*sinkRec{{}, {}}
+	sinks := [2]*sinkRec{{evs: make([]sinkEv, 0, 8)}, {evs: make([]sinkEv, 0, 8)}}
 	var procs [2]*procRec
 	factory := mgrpc.AsStreamProcessorFactory(func(_ *url.URL, server, client mgrpc.Processor) (mgrpc.Processor, mgrpc.Processor) {
 		procs[0] = &procRec{dest: server}
@@ -804,6 +827,10 @@ func checkCase(r *vh.Run, c *caseSpec, mat func() *caseSpec) []string {
 		if c.flow(d) == nil {
 			continue
 		}
+		if o.notRun[d] {
+			r.Count("relay_direction_not_run", 1)
+			continue
+		}
 		if c.Kind == "nongrpc" {
 			judgeNonGRPC(v, c, d, o, via)
 		} else {
@@ -925,9 +952,9 @@ func runExh(r *vh.Run, child int) {
 			r.Sample(map[string]interface{}{"exhaustive_unit": u, "note": "all 2^(n-1) cut-point sets of this stream are enumerated (split over 16 children)"})
 		}
 	}
-	r.Count("exhaustive_units", int64(len(us)))
-	r.Count("exhaustive_max_stream_len", int64(maxN))
 	if child == 0 {
+		r.Count("exhaustive_units", int64(len(us)))
+		r.Count("exhaustive_max_stream_len", int64(maxN))
 		// streams without any message: END_STREAM alone
 		for _, enc := range []string{"", "identity", "gzip", "deflate", "snappy"} {
 			for _, eos := range []string{"empty", "trailers", "headers"} {
@@ -1087,14 +1114,14 @@ func runCutBlock(r *vh.Run, b cutBlock) {
 }
 
 func cutBlocks(r *vh.Run) []cutBlock {
-	cap2 := r.Pick(70, 160)
+	cap2 := r.Pick(48, 160)
 	var bs []cutBlock
 	idx := 0
 	for si, ls := range longStreams() {
 		for _, eos := range []string{"last", "empty", "trailers"} {
 			for dir := 0; dir < 2; dir++ {
 				b := cutBlock{Kind: "cut-block", Enc: ls.enc, Msgs: ls.msgs, EOS: eos, Dir: dir,
-					PSeed: uint64(r.Seed)*1000003 + uint64(si), NRand: r.Pick(20, 100), Idx: idx}
+					PSeed: uint64(r.Seed)*1000003 + uint64(si), NRand: r.Pick(12, 100), Idx: idx}
 				idx++
 				rd := b.caseFor(nil).flow(dir).render(b.PSeed, dir)
 				b.TwoCut = len(rd.Wire) <= cap2
@@ -1127,7 +1154,7 @@ func runCut12(r *vh.Run, child int) {
 var randSizes = []int{0, 1, 5, 100, 70000}
 var encs = []string{"", "identity", "gzip", "deflate", "snappy"}
 
-func randFlow(rng *rand.Rand, pseed uint64, dir int, small bool) *flowSpec {
+func randFlow(rng *rand.Rand, pseed uint64, dir int, maxBig int) *flowSpec {
 	f := &flowSpec{Enc: encs[rng.Intn(len(encs))]}
 	k := rng.Intn(7)
 	big := 0
@@ -1135,7 +1162,7 @@ func randFlow(rng *rand.Rand, pseed uint64, dir int, small bool) *flowSpec {
 		s := randSizes[rng.Intn(len(randSizes))]
 		if s == 70000 {
 			// keep huge messages rare enough for the tier's budget
-			if small || big >= 2 || rng.Intn(4) != 0 {
+			if big >= maxBig || rng.Intn(4) != 0 {
 				s = randSizes[rng.Intn(4)]
 			} else {
 				big++
@@ -1167,21 +1194,25 @@ func randCase(r *vh.Run, stream string, idx int, relay bool) *caseSpec {
 	if relay {
 		c.Via = "relay"
 	}
+	maxBig := 2
+	if relay {
+		maxBig = 1
+	}
 	switch x := rng.Intn(10); {
 	case x < 3:
-		c.C2S = randFlow(rng, c.PSeed, 0, relay)
+		c.C2S = randFlow(rng, c.PSeed, 0, maxBig)
 	case x < 6:
-		c.S2C = randFlow(rng, c.PSeed, 1, relay)
+		c.S2C = randFlow(rng, c.PSeed, 1, maxBig)
 	default:
-		c.C2S = randFlow(rng, c.PSeed, 0, relay)
-		c.S2C = randFlow(rng, c.PSeed, 1, relay)
+		c.C2S = randFlow(rng, c.PSeed, 0, maxBig)
+		c.S2C = randFlow(rng, c.PSeed, 1, maxBig)
 		c.Conc = !relay && rng.Intn(3) == 0
 	}
 	return c
 }
 
 func runRand(r *vh.Run, child int) {
-	n := r.Pick(2500, 30000)
+	n := r.Pick(1200, 30000)
 	for i := 0; i < n; i++ {
 		c := randCase(r, "c11-rand", child*1000000+i, false)
 		r.Case(c)
@@ -1240,6 +1271,9 @@ func runNonGRPC(r *vh.Run, via string, n int, stream string) {
 // ---------------------------------------------------------------------------
 
 func run(r *vh.Run, batch string) {
+	// the workload allocates short-lived compressor states and recorders; a
+	// larger GC target trades memory (a few hundred MB at most) for time
+	debug.SetGCPercent(400)
 	switch {
 	case strings.HasPrefix(batch, "exh-"):
 		child, _ := strconv.Atoi(batch[4:])
